@@ -186,6 +186,7 @@ func RunC12(c *Ctx) {
 	workload.W1Words(sink)
 	workload.W1First(sink)
 	workload.W1RL(sink)
+	workload.W1Uni(sink)
 	workload.W1Len(func(cs *h.Case) {
 		if cs.P[2] == 0 {
 			sink(cs)
@@ -506,6 +507,7 @@ func RunC13(c *Ctx) {
 	workload.W1Words(sink)
 	workload.W1First(sink)
 	workload.W1RL(sink)
+	workload.W1Uni(sink)
 	nullVariants(sink)
 	workload.W1(c.Thorough(), sink)
 	workload.W1Len(func(cs *h.Case) {
